@@ -750,6 +750,33 @@ def pooled_typestate(ctx, rule):
                            f'{v} is not used after it was released', not used,
                            f'used at line {used[0].lineno} after release' if used else '')
     ctx.floor(rule, n, 6, 'pooled object acquisitions')
+    # … and inside the pool itself: once a release function has handed the object back (to the pool's release method /
+    # its free list) it no longer owns it — another thread may already have acquired it
+    n_rel = 0
+    for mn, m in sorted(repo.modules.items()):
+        if not mn.startswith('beartype._util.cache.pool'):
+            continue
+        for fn in [x for x in ast.walk(m.tree) if isinstance(x, (ast.FunctionDef, ast.AsyncFunctionDef)) and 'release' in x.name]:
+            ps = [p_ for p_ in params_of(fn) if p_ not in ('self', 'cls')]
+            for st in [x for x in ast.walk(fn) if isinstance(x, ast.stmt) and not isinstance(x, (ast.FunctionDef, ast.If, ast.With, ast.For, ast.While, ast.Try))]:
+                handed = set()
+                for c in ast.walk(st):
+                    if isinstance(c, ast.Call):
+                        callee = (dotted(c.func) or norm(c.func))
+                        if 'release' in callee.split('.')[-1] or callee.endswith('.append'):
+                            for a_ in list(c.args) + [k.value for k in c.keywords]:
+                                if isinstance(a_, ast.Name) and a_.id in ps:
+                                    handed.add(a_.id)
+                if not handed:
+                    continue
+                n_rel += 1
+                later = [x for x in ast.walk(fn) if isinstance(x, ast.Name) and x.id in handed and isinstance(x.ctx, ast.Load)
+                         and x.lineno > getattr(st, 'end_lineno', st.lineno)]
+                ctx.ob(rule, f'pool:{mn.split(".")[-1]}.{qualname_of(fn)}:no-use-after-hand-back', m.where(st),
+                       'a release function does not touch the object after handing it back to the pool', not later,
+                       f'`{norm(parent(later[0]))[:60]}` at line {later[0].lineno} uses {later[0].id} after it went back to the pool '
+                       f'(another thread may own it by then)' if later else '')
+    ctx.require(n_rel >= 2, f'{rule}: only {n_rel} hand-back sites found in the pool package')
 
 
 def dedup_exemption(ctx, RULE):
